@@ -43,10 +43,14 @@ func (s *Snapshot) Aggregate(similar Similarity) *Aggregated {
 	type count struct {
 		ids   []int
 		first bool
+		// order is the position in s.Goroutines of the first member. It is unique
+		// per bucket, which makes the result independent of the map iteration
+		// order.
+		order int
 	}
 	b := map[*Signature]*count{}
 	// O(n²). Fix eventually.
-	for _, routine := range s.Goroutines {
+	for i, routine := range s.Goroutines {
 		found := false
 		for key, c := range b {
 			// When a match is found, this effectively drops the other goroutine ID.
@@ -68,13 +72,16 @@ func (s *Snapshot) Aggregate(similar Similarity) *Aggregated {
 			// Create a copy of the Signature, since it will be mutated.
 			key := &Signature{}
 			*key = routine.Signature
-			b[key] = &count{ids: []int{routine.ID}, first: routine.First}
+			b[key] = &count{ids: []int{routine.ID}, first: routine.First, order: i}
 		}
 	}
 	bs := make([]*Bucket, 0, len(b))
+	order := make(map[*Bucket]int, len(b))
 	for signature, c := range b {
 		sort.Ints(c.ids)
-		bs = append(bs, &Bucket{Signature: *signature, IDs: c.ids, First: c.first})
+		bucket := &Bucket{Signature: *signature, IDs: c.ids, First: c.first}
+		order[bucket] = c.order
+		bs = append(bs, bucket)
 	}
 	// Do reverse sort.
 	sort.SliceStable(bs, func(i, j int) bool {
@@ -89,7 +96,11 @@ func (s *Snapshot) Aggregate(similar Similarity) *Aggregated {
 		if r.Signature.less(&l.Signature) {
 			return false
 		}
-		return len(r.IDs) > len(l.IDs)
+		if len(r.IDs) != len(l.IDs) {
+			return len(r.IDs) > len(l.IDs)
+		}
+		// Break ties in the order the goroutines were printed.
+		return order[l] < order[r]
 	})
 	return &Aggregated{
 		Snapshot: s,
